@@ -207,8 +207,8 @@ def evaluate(asm, lines, idx=0):
                         # which half is wrong?  if the low part is the %lo of the right value, the line at fault is the lui
                         want_lo = ((want + 0x800) & 0xfff) - 0x800
                         blame = hi[1].text if (hi is not None and imm == want_lo) else ln.text
-                        out['problems'].append(('C08', compress, 'line {} {!r}: pair decodes to hi={} lo={} but the value is {} ({} part wrong)'.format(
-                            i, ln.text.strip(), hi[2] if hi else None, imm, want, 'upper' if blame is not ln.text else 'lower'), blame))
+                        out['problems'].append(('C08', compress, 'line {} {!r} at offset {} = {}: pair decodes to hi={} lo={} but the value is {} ({} part wrong)'.format(
+                            i, ln.text.strip(), off, b.hex(), hi[2] if hi else None, imm, want, 'upper' if blame is not ln.text else 'lower'), blame))
                 else:
                     want = ref_value(ln.ops[2], ln.ops[3], lo, off)
                     imm = int(d[-1]) if d and d[0] in ('i',) else (0 if d and d[0] == 'r' else None)
